@@ -1143,19 +1143,24 @@ Qed.
 
 (* the position-based rank decreases along every gate of a graph built in
    dependency order *)
-Lemma base_rank_edge G : wfg G ->
+Lemma base_rank_edge0 G : wfg0 G ->
   forall c, In c (gorder G) -> forall w, In w (inputs_of (gn G c)) ->
   base_rank G w < base_rank G (nO (gn G c)).
 Proof.
   intros WF c Hc w Hw. destruct (in_split _ _ Hc) as (l1 & l2 & E).
-  destruct (wf_topo _ WF l1 c l2 E) as (Tin & Tnot & Tdist).
+  destruct (w0_topo _ WF l1 c l2 E) as (Tin & Tnot & Tdist).
   unfold base_rank. rewrite E. rewrite (first_prod_here G l1 c l2 Tdist).
   destruct (Tin w Hw) as [Hi|(p & Hp & Ep)].
   - rewrite first_prod_none; [lia|]. intros g Hg Eg. rewrite <- E in Hg.
     destruct (in_split _ _ Hg) as (a & b & E').
-    destruct (wf_topo _ WF a g b E') as (_ & N & _). apply N. now rewrite Eg.
+    destruct (w0_topo _ WF a g b E') as (_ & N & _). apply N. now rewrite Eg.
   - destruct (first_prod_before G l1 (c :: l2) p w Hp Ep) as (i & Hi & Hlt). rewrite Hi. lia.
 Qed.
+
+Lemma base_rank_edge G : wfg G ->
+  forall c, In c (gorder G) -> forall w, In w (inputs_of (gn G c)) ->
+  base_rank G w < base_rank G (nO (gn G c)).
+Proof. intros WF. apply base_rank_edge0. now apply wfg_wfg0. Qed.
 
 (* both constant wires are put at the lower of their two positions *)
 Definition fresh_rank (G : graph) (z o : nat) : nat -> nat :=
